@@ -78,6 +78,12 @@ def build_inputs(case, seed):
     if case["neg"]:
         pos = tuple(int(rng.integers(0, s)) for s in r)
         rms[pos] = -abs(rms[pos])
+    if case.get("nan"):
+        # a NaN somewhere else in the rms map must not hide a negative value (nor make a clean map be refused)
+        flat = rms.reshape(-1)
+        cand = [i for i in range(flat.size) if flat[i] > 0]
+        if cand:
+            flat[cand[int(rng.integers(0, len(cand)))]] = np.nan
     psf = np.abs(rng.normal(1, 0.3, size=p))
     psf /= psf.sum()
     mask = None
@@ -114,7 +120,7 @@ def run_fitter(case, seed=0):
     nd, nr, npsf = np.asarray(data), np.asarray(rms), np.asarray(psf)
     for name, stored, orig in (("data", f.data, nd), ("rms", f.rms, nr), ("psf", f.psf, npsf)):
         s = np.asarray(stored)
-        if s.dtype != np.float32 or s.shape != orig.shape or not np.array_equal(s, orig.astype(np.float32)):
+        if s.dtype != np.float32 or s.shape != orig.shape or not np.array_equal(s, orig.astype(np.float32), equal_nan=True):
             msgs.append(f"{name} not stored value-for-value as float32 (shape {s.shape} vs {orig.shape})")
     sm = np.asarray(f.mask)
     exp = np.ones(nd.shape, bool) if mask is None else ~(np.asarray(mask) != 0)
@@ -141,8 +147,15 @@ def run_renderer(case):
     return "ok"
 
 
+def two_d(case):
+    """the Lean decision model speaks about 2-D shapes; other ranks are judged by the oracle alone"""
+    return len(case["r"]) == 2 and (case["m"] is None or len(case["m"]) == 2)
+
+
 def model_line(case):
     m = case["m"]
+    if not two_d(case):
+        return "ping"
     if case.get("cmd") == "ri":
         return "ri %s %d %d %d %d" % (case["R"], *case["d"], *case["p"])
     return "ci %s %d %d %d %d %d %d %s %s %d" % (
@@ -240,6 +253,16 @@ def gen_cases(ctx):
                 for R in RENDERERS:
                     for m in (None, d):
                         cases.append(dict(R=R, d=d, r=d, p=p, m=m, neg=False, fitter="multi" if R == "fourier" else "single"))
+    # shapes of a different number of dimensions whose leading axes agree, and NaN next to a negative rms value
+    for N in ((8, 24) if ctx.tier == "quick" else (8, 16, 24, 32, 40)):
+        d = (N, N)
+        for odd in [(N,), (N, N, 1), (N, N, 2), (1, N, N), (N * N,)]:
+            cases.append(dict(R="pixel", d=d, r=odd, p=(5, 5), m=None, neg=False))
+            cases.append(dict(R="pixel", d=d, r=d, p=(5, 5), m=odd, neg=False, mdtype=["bool", "int", "float"][len(cases) % 3]))
+        for R in RENDERERS:
+            for neg in (True, False):
+                cases.append(dict(R=R, d=d, r=d, p=(5, 5), m=(d if R == "hybrid" else None), neg=neg, nan=True,
+                                  kind="jax" if R == "fourier" else "numpy"))
     # random consistent inputs of other sizes for the round trip
     for _ in range(30 if ctx.tier == "quick" else 300):
         N = int(rng.integers(8, 41))
@@ -316,7 +339,7 @@ def correspondence(ctx):
         key = (c.get("cmd", "ci"), c["R"], tuple(c["d"]), tuple(c["r"]), tuple(c["p"]), None if c["m"] is None else tuple(c["m"]), c["neg"])
         if allowed_outcomes(c) != {"ok"}:
             distinct.add(key)
-        if m != r:
+        if m != r and two_d(c):
             disagreements.append(dict(case={k: (list(v) if isinstance(v, tuple) else v) for k, v in c.items()}, model=m, real=r))
         violations += oracle_eval(c, r, stored)
     tdis, tvio = run_types(ctx)
